@@ -70,6 +70,9 @@ def sequences(ctx, inst):
     for _ in range(8 if ctx.thorough else 3):
         n = rng.randint(2, 40)
         seqs.append([rng.getrandbits(1) for _ in range(n * b)])
+    # long frames (block-wise / chunked implementations only show beyond their block length)
+    for n in ([rng.randint(2050, 2600), rng.randint(4097, 5200)] if inst.memory or ctx.thorough else [rng.randint(2050, 4200)]):
+        seqs.append([rng.getrandbits(1) for _ in range(n * b)])
     return seqs
 
 
